@@ -149,6 +149,15 @@ def gen_parameter_configs(quick):
           if ext == vz.ExternalType.BOOLEAN and set(fv) != {'True', 'False'}:
             continue
           out.append(('categorical', lambda name=name, fv=fv, default=default, ext=ext: F(name, feasible_values=fv, default_value=default, external_type=ext)))
+  # a child declared once under several parent values (factory(children=[(values, child)])), also with a grandchild
+  for pvals in (['a', 'b'], ['a', 'b', 'z'], ['z']):
+    for deep in (False, True):
+      def build(pvals=pvals, deep=deep):
+        child = F('c', feasible_values=['x', 'y'], children=[(['x'], F('g', bounds=(0.0, 1.0)))] if deep else [])
+        return F('p', feasible_values=['a', 'b', 'z'], children=[(list(pvals), child)])
+      out.append(('conditional-shared-child', build))
+  for pvals in ([1, 2], [1, 2, 3]):
+    out.append(('conditional-shared-child', lambda pvals=pvals: F('n', bounds=(1, 3), children=[(list(pvals), F('w', feasible_values=[16.0, 64.0], children=[([16.0, 64.0], F('h', bounds=(0.0, 1.0)))]))])))
   return out
 
 
